@@ -2,7 +2,11 @@ use crate::iter::Bytes;
 
 #[target_feature(enable = "sse4.2")]
 pub unsafe fn match_uri_vectored(bytes: &mut Bytes) {
+    #[cfg(httparse_verif)]
+    crate::_verif::mark(crate::_verif::B_SSE42_URI);
     while bytes.as_ref().len() >= 16 {
+        #[cfg(httparse_verif)]
+        crate::_verif::bump(&crate::_verif::BLOCKS, 1);
         let advance = match_url_char_16_sse(bytes.as_ref());
 
         bytes.advance(advance);
@@ -42,7 +46,11 @@ unsafe fn match_url_char_16_sse(buf: &[u8]) -> usize {
 
 #[target_feature(enable = "sse4.2")]
 pub unsafe fn match_header_value_vectored(bytes: &mut Bytes) {
+    #[cfg(httparse_verif)]
+    crate::_verif::mark(crate::_verif::B_SSE42_VALUE);
     while bytes.as_ref().len() >= 16 {
+        #[cfg(httparse_verif)]
+        crate::_verif::bump(&crate::_verif::BLOCKS, 1);
         let advance = match_header_value_char_16_sse(bytes.as_ref());
         bytes.advance(advance);
 
